@@ -11,10 +11,7 @@
 (***************************************************************************)
 EXTENDS CasSteps
 
-RECURSIVE ApplyRecs(_, _, _)
-ApplyRecs(x, recs, snapVer) ==
-    IF recs = <<>> THEN x
-    ELSE ApplyRecs(IF Head(recs).v > snapVer THEN ApplyOp(x, Head(recs).op) ELSE x, Tail(recs), snapVer)
+\* (ApplyRecs: module CasModel)
 RECURSIVE IntactPrefix(_, _)
 IntactPrefix(B, present) ==
     IF B = <<>> \/ Head(B) \notin present THEN <<>> ELSE <<Head(B)>> \o IntactPrefix(Tail(B), present)
